@@ -322,6 +322,12 @@ class SymRun:
             cls[i] = {'nslots': len(sl.items), 'gcount': self.perm_count(i, idv), 'gcount_int': self.group_count(i)}
             if self.t.analysis != '()':
                 cls[i]['data'] = conc(dd(ex.call(self.M('EGraph::analysis_data'), [self.egref, idv])))
+                # the datum is the merge-fold of make over the class's e-nodes, computed from the children's current data (the crate's own make/merge)
+                acc = None
+                for n in ex.call(self.M('EGraph::enodes'), [self.egref, idv]).items:
+                    v = ex.call_callee('<N as analysis::Analysis<L>>::make', [self.egref, Ref({'n': n}, 'n')])
+                    acc = v if acc is None else ex.call_callee('<N as analysis::Analysis<L>>::merge', [acc, v])
+                cls[i]['data_fix'] = None if acc is None else conc(acc)
         snap['classes'] = cls
         if self.opts.get('check', True) and (not self.t.light or len(self.snaps) == len(self.t.ops)):
             snap['check'] = self.run_check()
